@@ -15,7 +15,8 @@ from concurrent.futures import ThreadPoolExecutor
 
 ROOT = os.path.dirname(os.path.abspath(__file__))
 REPO = os.environ.get("VERIF_REPO", "/repo")
-BUILD = os.path.join(ROOT, "build")
+BUILD = os.environ.get("VERIF_BUILD") or os.path.join(ROOT, "build")   # override only for isolated scratch runs (tools/try_seed.sh)
+REPLAY_DIR = os.path.join(os.environ["VERIF_BUILD"], "replay") if os.environ.get("VERIF_BUILD") else os.path.join(ROOT, "replay")
 NPROC = int(os.environ.get("VERIF_NPROC", "16"))
 CXX = os.environ.get("VERIF_CXX", "g++")
 
@@ -329,7 +330,7 @@ def main():
     distinct = len(hashes) if hashes_exact else agg["nontrivial"]
 
     # classify violations
-    os.makedirs(os.path.join(ROOT, "replay"), exist_ok=True)
+    os.makedirs(REPLAY_DIR, exist_ok=True)
     known_hit = {}
     unknown = []
     for v in viols:
@@ -363,7 +364,7 @@ def main():
             v["replay_status"] = st
     nviol = len(unknown)
     for idx, v in enumerate(confirmed):
-        path = os.path.join(ROOT, "replay", "%s-%d.json" % (pid, idx))
+        path = os.path.join(REPLAY_DIR, "%s-%d.json" % (pid, idx))
         with open(path, "w") as f:
             json.dump(dict(property=pid, unit=v["unit"], subcheck=v["sub"], key=v["key"], detail=v["detail"],
                            replay_status=v["replay_status"], tier=tier), f, indent=1)
